@@ -481,6 +481,31 @@ func runLocal(r *vt.Run, t vt.TB, s localSpec) {
 			continue
 		}
 		ast := alone.res.(sql.CreateTableStmt)
+		// the column's constraints one at a time: if the parser takes each
+		// of them, and the column with all of them, it must take them in
+		// another order as well (SQLite permitting) - whether a constraint is
+		// understood does not depend on the constraint before it
+		if c := tb.Cols[i]; len(c.Cons) >= 2 {
+			rev := c
+			rev.Cons = nil
+			for k := len(c.Cons) - 1; k >= 0; k-- {
+				rev.Cons = append(rev.Cons, c.Cons[k])
+			}
+			rot := c
+			rot.Cons = append(append([]string{}, c.Cons[1:]...), c.Cons[0])
+			variants := []string{"CREATE TABLE " + tb.Ident.SQL + " (" + rev.SQL() + ")", "CREATE TABLE " + tb.Ident.SQL + " (" + rot.SQL() + ")"}
+			vok := sqliteAccepts(r, t, "", variants)
+			for vi, v := range variants {
+				if !vok[vi] {
+					continue
+				}
+				r.Count("local:constraint-orders-tried", 1)
+				if out := parseOnce(v); out.err != "" || out.panic != "" {
+					r.Violation(t, s, "local:constraint-order", "%q parses, the same constraints in another order do not (SQLite accepts both): Parse(%q) = %s%s", stmts[1+i], v, out.err, out.panic)
+					return
+				}
+			}
+		}
 		if len(ast.Columns) == 1 && typeArgsOf(ast, 0) != typeArgsOf(st, i) {
 			r.Violation(t, s, "local:column-type-arguments", "column %d of %q: type arguments reported as %q, the same text alone (%q) as %q", i, full, typeArgsOf(st, i), stmts[1+i], typeArgsOf(ast, 0))
 			return
